@@ -7,8 +7,10 @@ import (
 	"fmt"
 	"sort"
 	"strings"
+	"time"
 
 	disputetypes "github.com/tellor-io/layer/x/dispute/types"
+	bridgetypes "github.com/tellor-io/layer/x/bridge/types"
 	reportertypes "github.com/tellor-io/layer/x/reporter/types"
 
 	"cosmossdk.io/collections"
@@ -423,6 +425,16 @@ func (AggMonitor) Post(e *Explorer, before, w *World, pre interface{}, ev *Event
 		}
 		return fresh[i].Ts < fresh[j].Ts
 	})
+	changed := len(fresh) > 0
+	for _, a := range old {
+		if n, ok := idx[fmt.Sprintf("%x/%d", a.QueryId, a.Ts)]; ok && n.Agg.Flagged != a.Agg.Flagged {
+			changed = true
+		}
+	}
+	if changed {
+		probeAggregateGetters(e, w, now, fail)
+		checkNewSnapshots(e, before, w, now, fail)
+	}
 	for _, a := range fresh {
 		q := string(a.QueryId)
 		e.RC.Count("aggregates_appended", 1)
@@ -434,4 +446,146 @@ func (AggMonitor) Post(e *Explorer, before, w *World, pre interface{}, ev *Event
 		}
 		lastTs[q], lastIdx[q] = a.Ts, a.Agg.Index
 	}
+}
+
+// probeAggregateGetters compares every lookup with the chronological list model of each query, at one probe per
+// region of the timestamp axis (before the first, at, just before/after every stored timestamp, far after).
+func probeAggregateGetters(e *Explorer, w *World, all []AggKV, fail func(oracle, detail string)) {
+	ok := w.App.OracleKeeper
+	byQ := map[string][]AggKV{}
+	var order []string
+	for _, a := range all {
+		k := string(a.QueryId)
+		if _, seen := byQ[k]; !seen {
+			order = append(order, k)
+		}
+		byQ[k] = append(byQ[k], a)
+	}
+	for _, k := range order {
+		l := byQ[k]
+		sort.Slice(l, func(i, j int) bool { return l[i].Ts < l[j].Ts })
+		qid := []byte(k)
+		reporters := map[string]bool{}
+		probes := []uint64{0, 1, 1 << 62}
+		for _, a := range l {
+			probes = append(probes, a.Ts-1, a.Ts, a.Ts+1)
+			if a.Agg.AggregateReporter != "" {
+				reporters[a.Agg.AggregateReporter] = true
+			}
+		}
+		e.RC.Count("getter_probe_sets", 1)
+		// current
+		cur, cts, err := ok.GetCurrentAggregateReport(w.Ctx, qid)
+		if err != nil || cur == nil || uint64(cts.UnixMilli()) != l[len(l)-1].Ts || cur.Index != l[len(l)-1].Agg.Index {
+			fail("getter-current", fmt.Sprintf("GetCurrentAggregateReport(%x..) does not return the newest aggregate (ts %d)", qid[:4], l[len(l)-1].Ts))
+		}
+		// by index
+		for i := 0; i <= len(l)+1; i++ {
+			a, ts, err := ok.GetAggregateByIndex(w.Ctx, qid, uint64(i))
+			if i < len(l) {
+				if err != nil || a == nil || uint64(ts.UnixMilli()) != l[i].Ts {
+					fail("getter-by-index", fmt.Sprintf("GetAggregateByIndex(%x..,%d) does not return the %d-th aggregate in time order", qid[:4], i, i))
+				}
+			} else if err == nil && a != nil {
+				fail("getter-by-index", fmt.Sprintf("GetAggregateByIndex(%x..,%d) returns an aggregate although only %d exist", qid[:4], i, len(l)))
+			}
+		}
+		for _, T := range probes {
+			tt := time.UnixMilli(int64(T))
+			// reference answers
+			var before, beforeUnflagged, after *AggKV
+			for i := range l {
+				if l[i].Ts < T {
+					before = &l[i]
+					if !l[i].Agg.Flagged {
+						beforeUnflagged = &l[i]
+					}
+				}
+				if l[i].Ts > T && after == nil {
+					after = &l[i]
+				}
+			}
+			gb, gts, err := ok.GetAggregateBefore(w.Ctx, qid, tt)
+			if beforeUnflagged == nil {
+				if err == nil && gb != nil {
+					fail("getter-before", fmt.Sprintf("GetAggregateBefore(%x..,%d) returns data although no unflagged aggregate precedes", qid[:4], T))
+				}
+			} else if err != nil || gb == nil || uint64(gts.UnixMilli()) != beforeUnflagged.Ts || gb.Flagged {
+				fail("getter-before", fmt.Sprintf("GetAggregateBefore(%x..,%d) should return the unflagged aggregate at %d", qid[:4], T, beforeUnflagged.Ts))
+			}
+			tb, err := ok.GetTimestampBefore(w.Ctx, qid, tt)
+			if before == nil {
+				if err == nil {
+					fail("getter-timestamp-before", fmt.Sprintf("GetTimestampBefore(%x..,%d) returns %d although nothing precedes", qid[:4], T, tb.UnixMilli()))
+				}
+			} else if err != nil || uint64(tb.UnixMilli()) != before.Ts {
+				fail("getter-timestamp-before", fmt.Sprintf("GetTimestampBefore(%x..,%d) = %d (err %v), the chronological predecessor is at %d", qid[:4], T, tb.UnixMilli(), err, before.Ts))
+			}
+			ta, err := ok.GetTimestampAfter(w.Ctx, qid, tt)
+			if after == nil {
+				if err == nil {
+					fail("getter-timestamp-after", fmt.Sprintf("GetTimestampAfter(%x..,%d) returns %d although nothing follows", qid[:4], T, ta.UnixMilli()))
+				}
+			} else if err != nil || uint64(ta.UnixMilli()) != after.Ts {
+				fail("getter-timestamp-after", fmt.Sprintf("GetTimestampAfter(%x..,%d) = %d (err %v), the chronological successor is at %d", qid[:4], T, ta.UnixMilli(), err, after.Ts))
+			}
+			at, err := ok.GetAggregateByTimestamp(w.Ctx, qid, tt)
+			exact := false
+			for i := range l {
+				if l[i].Ts == T {
+					exact = true
+					if err != nil || at.Index != l[i].Agg.Index {
+						fail("getter-by-timestamp", fmt.Sprintf("GetAggregateByTimestamp(%x..,%d) does not return the stored aggregate", qid[:4], T))
+					}
+				}
+			}
+			if !exact && err == nil {
+				fail("getter-by-timestamp", fmt.Sprintf("GetAggregateByTimestamp(%x..,%d) returns data for a timestamp that holds no aggregate", qid[:4], T))
+			}
+			for r := range reporters {
+				var want *AggKV
+				for i := range l {
+					if l[i].Ts < T && !l[i].Agg.Flagged && l[i].Agg.AggregateReporter == r {
+						want = &l[i]
+					}
+				}
+				got, err := ok.GetAggregateBeforeByReporter(w.Ctx, qid, tt, sdk.MustAccAddressFromBech32(r))
+				if (want == nil) != (got == nil) || err != nil || (want != nil && got.Index != want.Agg.Index) {
+					fail("getter-before-by-reporter", fmt.Sprintf("GetAggregateBeforeByReporter(%x..,%d,%s) disagrees with the list", qid[:4], T, short(r)))
+				}
+			}
+		}
+	}
+}
+
+// checkNewSnapshots: the previous/next report timestamps of every attestation snapshot created in this
+// transition equal the neighbours in the query's chronological list at that moment.
+func checkNewSnapshots(e *Explorer, before, w *World, all []AggKV, fail func(oracle, detail string)) {
+	old := map[string]bool{}
+	_ = before.App.BridgeKeeper.AttestSnapshotDataMap.Walk(before.Ctx, nil, func(k []byte, _ bridgetypes.AttestationSnapshotData) (bool, error) {
+		old[string(k)] = true
+		return false, nil
+	})
+	_ = w.App.BridgeKeeper.AttestSnapshotDataMap.Walk(w.Ctx, nil, func(k []byte, d bridgetypes.AttestationSnapshotData) (bool, error) {
+		if old[string(k)] {
+			return false, nil
+		}
+		var prev, next uint64
+		for _, a := range all {
+			if !bytes.Equal(a.QueryId, d.QueryId) {
+				continue
+			}
+			if a.Ts < d.Timestamp && a.Ts > prev {
+				prev = a.Ts
+			}
+			if a.Ts > d.Timestamp && (next == 0 || a.Ts < next) {
+				next = a.Ts
+			}
+		}
+		e.RC.Count("snapshots_checked", 1)
+		if d.PrevReportTimestamp != prev || d.NextReportTimestamp != next {
+			fail("snapshot-neighbours", fmt.Sprintf("attestation snapshot of %x.. at %d records previous/next %d/%d, the list neighbours are %d/%d", d.QueryId[:4], d.Timestamp, d.PrevReportTimestamp, d.NextReportTimestamp, prev, next))
+		}
+		return false, nil
+	})
 }
